@@ -61,7 +61,7 @@ func c14ProbeSet(c *core.Ctx) [][]byte {
 var c14Limits = []uint32{0, 3072, 2}
 
 func opFromInt(v int) extOp {
-	return extOp{ExtXML: v >= 80000, AliasBuiltin: v%80000 >= 40000, Same: v%40000 >= 20000, Dup: v%20000 >= 10000, Attach: (v % 10000) / 100, Pred: (v / 10) % 10, Aliases: v % 10}
+	return extOp{NoExt: v >= 160000, ExtXML: v%160000 >= 80000, AliasBuiltin: v%80000 >= 40000, Same: v%40000 >= 20000, Dup: v%20000 >= 10000, Attach: (v % 10000) / 100, Pred: (v / 10) % 10, Aliases: v % 10}
 }
 func opToInt(o extOp) int {
 	v := o.Attach*100 + o.Pred*10 + o.Aliases
@@ -76,6 +76,9 @@ func opToInt(o extOp) int {
 	}
 	if o.ExtXML {
 		v += 80000
+	}
+	if o.NoExt {
+		v += 160000
 	}
 	return v
 }
@@ -334,6 +337,9 @@ func c14Fresh(c *core.Ctx, args []string) int {
 		if op.ExtXML {
 			ext = ".xml"
 		}
+		if op.NoExt {
+			ext = ""
+		}
 		if op.Dup {
 			name = "x/dup"
 		}
@@ -524,7 +530,7 @@ func c14Run(c *core.Ctx) {
 					continue
 				}
 				one := []extOp{{Attach: a1, Pred: p1, Same: true, Aliases: p1 % 2}}
-				hs := [][]extOp{one, {{Attach: a1, Pred: p1, Aliases: 2, AliasBuiltin: true}}, {{Attach: a1, Pred: p1, Aliases: 1, AliasBuiltin: true}, {Attach: 5, Pred: 1}}}
+				hs := [][]extOp{one, {{Attach: a1, Pred: p1, Aliases: 1, NoExt: true}}, {{Attach: a1, Pred: p1, NoExt: true}, {Attach: 8, Pred: 1, NoExt: true, Aliases: 1}}, {{Attach: a1, Pred: p1, Aliases: 2, AliasBuiltin: true}}, {{Attach: a1, Pred: p1, Aliases: 1, AliasBuiltin: true}, {Attach: 5, Pred: 1}}}
 				for _, a2 := range []int{0, 2, 8, 9} {
 					for _, p2 := range []int{1, 2, 4} {
 						hs = append(hs, []extOp{one[0], {Attach: a2, Pred: p2, Aliases: 1}}, []extOp{{Attach: a2 % 8, Pred: p2}, one[0]})
